@@ -1,0 +1,5 @@
+//go:build !verif
+
+package tracing
+
+func verifAt(point string, args ...any) {}
